@@ -171,7 +171,6 @@ def Issuer (rp : RP) := rp.issuer
 end RP
 
 namespace Go
-def append {α : Type} (l : List α) (x : α) : List α := l ++ [x]
 def mapList {α β : Type} (l : List α) (f : α → β) : List β := l.map f
 end Go
 
